@@ -226,7 +226,7 @@ func classify(sent, got [][]byte) (kind string, at int, detail string) {
 func TestC15(t *testing.T) {
 	r := lib.Start(t, "C15")
 	defer r.Finish()
-	r.Rule("one case = one live session (protocol from {47,340,758,760,761,763,764,767,775}, client threshold and backend threshold drawn independently from {-1,0,64,256}; every 6th session 'heavy': both sides compressing, 48-400 KiB hardly compressible payloads, peers reading their sockets in small chunks) relaying 2 concurrent streams of pass-through packets: ids unknown to Gate in play (boundary-biased sizes) interleaved with hand-built packets of the KNOWN types the play handlers only observe or ignore and relay as received (backend->client: KeepAlive, legacy PlayerListItem, PlayerInfo Upsert/Remove, BossBar, BundleDelimiter, unregistered-channel and register plugin messages, HeaderAndFooter, PlayerChatCompletion, CustomReportDetails, title Times, SystemChat, LegacyChat; client->backend: ClientSettings) with ordinary and unusual-but-legal contents (zero UUIDs, empty names, 0 / many entries, unknown enum values, no actions); 4 sessions run at a time; evaluations = packets relayed and compared; distinct = distinct (direction, protocol, thresholds, packet kind, size class)")
+	r.Rule("one case = one live session (protocol from {47,340,758,760,761,763,764,767,775}, client threshold and backend threshold drawn independently from {-1,0,64,256}; every 6th session 'heavy': both sides compressing, 48-400 KiB hardly compressible payloads, peers reading their sockets in small chunks) relaying 2 concurrent streams of pass-through packets: ids unknown to Gate in play (boundary-biased sizes) interleaved with hand-built packets of the KNOWN types the play handlers only observe or ignore and relay as received (backend->client: KeepAlive, legacy PlayerListItem, PlayerInfo Upsert/Remove, BossBar, BundleDelimiter, unregistered-channel and register plugin messages, HeaderAndFooter, PlayerChatCompletion, CustomReportDetails, title Times, SystemChat, LegacyChat; client->backend: ClientSettings) with ordinary and unusual-but-legal contents (zero UUIDs, empty names, 0 / many entries, unknown enum values, no actions); 4 (thorough: 8) sessions run at a time; evaluations = packets relayed and compared; distinct = distinct (direction, protocol, thresholds, packet kind, size class)")
 	r.Assume("fake peers frame/deframe with the harness's own codec; known packets are built byte by byte by the harness's own writer; ids are looked up (unknown ids: chosen as unknown) through Gate's registry and hand-built known packets are pre-checked against Gate's decoder (workload selection only, rejected ones are counted)")
 	rng := r.Rng("cases")
 	sessions := r.N(72, 3000)
@@ -251,7 +251,7 @@ func TestC15(t *testing.T) {
 	}
 	var wg sync.WaitGroup
 	work := make(chan sessionCase)
-	for w := 0; w < 4; w++ {
+	for w := 0; w < r.N(4, 8); w++ {
 		wg.Add(1)
 		go func() {
 			defer wg.Done()
